@@ -48,3 +48,33 @@ package pogs
 //@   ensures implies(loc.i >= 0 && len(loc.path) > 0, len(r.path) == len(loc.path)+1 && r.path[len(loc.path)] == i &&
 //@     forall(0, len(loc.path), func(k int) bool { return r.path[k] == loc.path[k] }))
 //@   ensures implies(loc.i >= 0 && len(loc.path) == 0, len(r.path) == 2 && r.path[0] == loc.i && r.path[1] == i)
+
+// ---------------------------------------------------------------- the interpreters' own index expressions (PARTIAL:
+// no index out of range, no nil-map write while inserting or extracting any field or list of any
+// schema; extractStruct/insertStruct index the field map built by mapStruct and slice the schema's
+// display name by its prefix length - both rest on invariants of compiler-emitted schemas and are
+// not under contract)
+//@ func extracter.extractField -> err
+//@   props C19 C01
+//@   partial bounds nilmap
+//@   requires e != nil
+
+//@ func extracter.extractList -> err
+//@   props C19 C01
+//@   partial bounds nilmap
+//@   requires e != nil
+
+//@ func inserter.insertField -> err
+//@   props C19
+//@   partial bounds nilmap
+//@   requires ins != nil
+
+//@ func inserter.insertList -> err
+//@   props C19
+//@   partial bounds nilmap
+//@   requires ins != nil
+
+//@ func fieldIndex -> r
+//@   props C19
+//@   partial bounds nilmap
+//@   ensures r >= -1
